@@ -443,6 +443,8 @@ def _division_connected(
     m = len(graph)
 
     if use_graph_primitive:
+        if not isinstance(division, IntArray1D):
+            division = IntArray1D(division)
         for i in range(num_regions):
             region = solver.bool_array(n)
             solver.ensure(region == (division == i))
